@@ -1,4 +1,4 @@
-use hashbrown::{HashSet};
+use hashbrown::HashMap;
 use std::collections::BTreeMap;
 
 use crate::adt::{AdtMetadata, FieldPosition};
@@ -14,7 +14,7 @@ pub struct AdtDeserializer<'a, 'b, 'c> {
 
     stored_version: u8,
     made_optional_at: BTreeMap<FieldPosition, u8>,
-    removed_fields: HashSet<String>,
+    removed_fields: HashMap<String, u8>,
     inputs: Vec<InputRegion>,
 }
 
@@ -30,7 +30,7 @@ impl<'a, 'b, 'c> AdtDeserializer<'a, 'b, 'c> {
             read_constructor_idx: None,
             stored_version: 0,
             made_optional_at: BTreeMap::new(),
-            removed_fields: HashSet::new(),
+            removed_fields: HashMap::new(),
             inputs: Vec::new(),
         })
     }
@@ -48,7 +48,7 @@ impl<'a, 'b, 'c> AdtDeserializer<'a, 'b, 'c> {
 
         let mut inputs = Vec::with_capacity(serialized_evolution_steps.len());
         let mut made_optional_at = BTreeMap::new();
-        let mut removed_fields = HashSet::new();
+        let mut removed_fields = HashMap::new();
 
         for (idx, serialized_evolution_step) in serialized_evolution_steps.iter().enumerate() {
             match serialized_evolution_step {
@@ -62,7 +62,7 @@ impl<'a, 'b, 'c> AdtDeserializer<'a, 'b, 'c> {
                     inputs.push(InputRegion::empty());
                 }
                 SerializedEvolutionStep::FieldRemoved { field_name } => {
-                    removed_fields.insert(field_name.clone());
+                    removed_fields.insert(field_name.clone(), idx as u8);
                     inputs.push(InputRegion::empty());
                 }
                 _ => {
@@ -83,12 +83,29 @@ impl<'a, 'b, 'c> AdtDeserializer<'a, 'b, 'c> {
         })
     }
 
+    /// Was the field of this name removed in the stored version? A removal that precedes the step which added the
+    /// reader's field of that name concerns an earlier field with the same name (for tuple variants, whose fields are
+    /// named by position, replacing the last element cannot avoid reusing its name).
+    fn is_removed(&self, field_name: &str) -> bool {
+        match self.removed_fields.get(field_name) {
+            Some(removed_at) => {
+                let added_at = *self
+                    .metadata
+                    .field_generations
+                    .get(field_name)
+                    .unwrap_or(&0);
+                *removed_at > added_at
+            }
+            None => false,
+        }
+    }
+
     pub fn read_field<T: BinaryDeserializer>(
         &mut self,
         field_name: &str,
         field_default: Option<T>,
     ) -> Result<T> {
-        if self.removed_fields.contains(field_name) {
+        if self.is_removed(field_name) {
             Err(Error::FieldRemovedInSerializedVersion(
                 field_name.to_string(),
             ))
@@ -140,7 +157,7 @@ impl<'a, 'b, 'c> AdtDeserializer<'a, 'b, 'c> {
         field_name: &str,
         field_default: Option<Option<T>>,
     ) -> Result<Option<T>> {
-        if self.removed_fields.contains(field_name) {
+        if self.is_removed(field_name) {
             Ok(None)
         } else {
             let chunk = *self
